@@ -169,7 +169,90 @@ fn named_out(strat: &Strategies<'_, u64, u64>) -> Value {
         let again = it.next().is_none();
         players.push(json!({"items": items, "final_len": final_len, "fused": again}));
     }
+    // the same listing through the other ways of driving an iterator (nth / skip / step_by / last / count, which a type
+    // may override): each must agree with plain next() on a fresh view
+    let alt = named_alt(strat);
+    for (pl, a) in alt.into_iter().enumerate() {
+        players[pl]["alt"] = match a {
+            None => Value::Null,
+            Some(msg) => json!(msg),
+        };
+    }
     json!(players)
+}
+
+fn named_alt(strat: &Strategies<'_, u64, u64>) -> Vec<Option<String>> {
+    let mut out = Vec::new();
+    for pl in 0..2usize {
+        let fresh = || {
+            let [a, b] = strat.as_named();
+            if pl == 0 {
+                a
+            } else {
+                b
+            }
+        };
+        let names: Vec<u64> = fresh().map(|(n, _)| *n).collect();
+        let n = names.len();
+        let mut bad: Option<String> = None;
+        for k in 0..=n {
+            let got = fresh().nth(k).map(|(nm, _)| *nm);
+            let want = names.get(k).copied();
+            if got != want && bad.is_none() {
+                bad = Some(format!("nth({}) gives infoset {:?} but the {}-th item of plain iteration is {:?}", k, got, k, want));
+            }
+            let sk = fresh().skip(k);
+            let adv = sk.len();
+            let cnt = sk.count();
+            if (adv != n - k || cnt != n - k) && bad.is_none() {
+                bad = Some(format!("skip({}) advertises {} and yields {} of the remaining {} infosets", k, adv, cnt, n - k));
+            }
+        }
+        let stepped: Vec<u64> = fresh().step_by(2).map(|(nm, _)| *nm).collect();
+        let want_step: Vec<u64> = names.iter().copied().step_by(2).collect();
+        if stepped != want_step && bad.is_none() {
+            bad = Some(format!("step_by(2) yields {:?}, plain iteration gives {:?}", stepped, want_step));
+        }
+        let last = fresh().last().map(|(nm, _)| *nm);
+        if last != names.last().copied() && bad.is_none() {
+            bad = Some(format!("last() gives {:?}, plain iteration ends with {:?}", last, names.last()));
+        }
+        if fresh().count() != n && bad.is_none() {
+            bad = Some(format!("count() is not {}", n));
+        }
+        // the action iterators
+        for idx in 0..n {
+            let acts: Vec<(u64, f64)> = match fresh().nth(idx) {
+                Some((_, a)) => a.map(|(x, p)| (*x, p)).collect(),
+                None => continue,
+            };
+            let m = acts.len();
+            for k in 0..=m {
+                if let Some((_, a)) = fresh().nth(idx) {
+                    let got = { let mut a2 = a; a2.nth(k).map(|(x, p)| (*x, p)) };
+                    if got != acts.get(k).copied() && bad.is_none() {
+                        bad = Some(format!("infoset {}: action nth({}) gives {:?}, plain iteration {:?}", names[idx], k, got, acts.get(k)));
+                    }
+                }
+                if let Some((_, a)) = fresh().nth(idx) {
+                    let sk = a.skip(k);
+                    let adv = sk.len();
+                    let cnt = sk.count();
+                    if (adv != m - k || cnt != m - k) && bad.is_none() {
+                        bad = Some(format!("infoset {}: action skip({}) advertises {} and yields {} of {}", names[idx], k, adv, cnt, m - k));
+                    }
+                }
+            }
+            if let Some((_, a)) = fresh().nth(idx) {
+                let l = a.last().map(|(x, p)| (*x, p));
+                if l != acts.last().copied() && bad.is_none() {
+                    bad = Some(format!("infoset {}: action last() gives {:?}", names[idx], l));
+                }
+            }
+        }
+        out.push(bad);
+    }
+    out
 }
 
 fn strat_err(e: cfr::StratError) -> &'static str {
